@@ -73,3 +73,33 @@ PROPS["C08"] = {
             "distinct = distinct (api, N, buffer sizes)",
     "assumptions": BR_ASSUME,
 }
+
+PROPS["C05"] = {
+    "driver": "c05", "trace_spec": "TraceHead",
+    "mc_quick": [mc("MCHeadPrefix", "MCHeadPrefix.cfg"), mc("MCHeadPrefix", "MCHeadPrefix_clean.cfg"),
+                 mc("MCHeadPrefix", "MCHeadPrefix_kf1.cfg", expect_violation="Refines"),
+                 mc("MCHeadPrefix", "MCHeadPrefix_f4.cfg", expect_violation="Refines")],
+    "require_classes": ["offer:3xx-after-location", "offer:shorter-than-version", "offer:h-1", "offer:over-limit"],
+    "rule": "one case = one generated well-formed response head (status, version, reason, 0..130 fields with OWS / empty / obs-text values, Location position) "
+            "followed by arbitrary bytes, offered at every prefix length 0..|H|+3 to a fresh Flow<RecvResponse> or Call<RecvResponse>; "
+            "distinct = distinct (status class, field count, reason class, Location position class)",
+    "assumptions": ["heads are generated within the quantifier: versions 1.0/1.1, statuses 101..999, numeric Content-Length only"],
+}
+PROPS["C20"] = {
+    "driver": "c20", "trace_spec": "TraceHead",
+    "mc_quick": [mc("MCHeadPrefix", "MCHeadPrefix_clean.cfg")],
+    "require_classes": ["c20:over-limit", "partial:some-fields"],
+    "rule": "one case = one generated request or response head with 0..N+2 fields for a limit N in {0,1,4,128}, every prefix length given to "
+            "try_parse_response / try_parse_request / try_parse_partial_response; distinct = distinct (limit, field count, parser, round mod 4)",
+    "assumptions": [],
+}
+PROPS["C06"] = {
+    "driver": "c06", "trace_spec": "TraceHead",
+    "mc_quick": [mc("MCRespRules", "MCRespRules.cfg")] + [mc("MCRespRules", "MCRespRules_%s.cfg" % d, expect_violation="ImplAdmissible")
+                 for d in ("LengthBeatsChunked", "ChunkedOnHttp10", "NoConnectClause", "No304Clause", "ChunkedExactCaseOnly")],
+    "mc_thorough": [mc("MCRespRules", "MCRespRules_all.cfg", workers=8)],
+    "require_kinds": ["cell"],
+    "rule": "one cell = (method, status, response version, Content-Length kind, Transfer-Encoding kind) fed as a head to a flow (or single call) built for that method; "
+            "distinct = distinct methods and statuses (every cell of their product with 2 x 5 x 5 header combinations is evaluated)",
+    "assumptions": ["Content-Length values with sign or leading zeros are outside the quantifier and not generated"],
+}
